@@ -141,41 +141,44 @@ theorem numTok_of {r : PRule} {txt : List Char} {kids : List T} {n lo hi : Nat}
 
 open Lean Meta Elab Tactic in
 /-- destruct every `∃`/`∧`/`∨`/`False` hypothesis, substitute variable equations, and apply the
-given forward lemmas (`lemma : … → H → …` replaces a hypothesis `H`) until nothing changes -/
-partial def destructGoal (lemmas : Array Name) (g : MVarId) : MetaM (List MVarId) := g.withContext do
-  let lctx ← getLCtx
-  for d in lctx do
-    if d.isImplementationDetail then continue
-    let ty ← whnfR (← instantiateMVars d.type)
-    if ty.isAppOf ``Exists || ty.isAppOf ``And || ty.isAppOf ``Or || ty.isAppOf ``False then
-      let subgoals ← g.cases d.fvarId
-      let gs ← subgoals.toList.mapM fun s => destructGoal lemmas s.mvarId
-      return gs.flatten
-    if let some (_, lhs, rhs) := ty.eq? then
-      if rhs.isFVar || lhs.isFVar then
-        let r ← observing? (subst g d.fvarId)
-        if let some g' := r then
-          return ← destructGoal lemmas g'
-    for l in lemmas do
-      let lem ← mkConstWithFreshMVarLevels l
-      let (args, _, _) ← forallMetaTelescopeReducing (← inferType lem)
-      if args.isEmpty then continue
-      let last := args.back!
-      let lastTy ← inferType last
-      if ← withReducible (isDefEq lastTy ty) then
-        last.mvarId!.assign d.toExpr
-        let pf ← instantiateMVars (mkAppN lem args)
-        let pfTy ← inferType pf
-        let g1 ← g.assert (← mkFreshUserName `h) pfTy pf
-        let (_, g2) ← g1.intro1
-        let g3 ← g2.clear d.fvarId
-        return ← destructGoal lemmas g3
-  return [g]
+given forward lemmas (`lemma : … → H → …` replaces a hypothesis `H`) until nothing changes
+(`fuel` bounds the number of steps) -/
+def destructGoal (lemmas : Array Name) : Nat → MVarId → MetaM (List MVarId)
+  | 0, g => pure [g]
+  | fuel + 1, g => g.withContext do
+    let lctx ← getLCtx
+    for d in lctx do
+      if d.isImplementationDetail then continue
+      let ty ← whnfR (← instantiateMVars d.type)
+      if ty.isAppOf ``Exists || ty.isAppOf ``And || ty.isAppOf ``Or || ty.isAppOf ``False then
+        let subgoals ← g.cases d.fvarId
+        let gs ← subgoals.toList.mapM fun s => destructGoal lemmas fuel s.mvarId
+        return gs.flatten
+      if let some (_, lhs, rhs) := ty.eq? then
+        if rhs.isFVar || lhs.isFVar then
+          let r ← observing? (subst g d.fvarId)
+          if let some g' := r then
+            return ← destructGoal lemmas fuel g'
+      for l in lemmas do
+        let lem ← mkConstWithFreshMVarLevels l
+        let (args, _, _) ← forallMetaTelescopeReducing (← inferType lem)
+        if args.isEmpty then continue
+        let last := args.back!
+        let lastTy ← inferType last
+        if ← withReducible (isDefEq lastTy ty) then
+          last.mvarId!.assign d.toExpr
+          let pf ← instantiateMVars (mkAppN lem args)
+          let pfTy ← inferType pf
+          let g1 ← g.assert (← mkFreshUserName `h) pfTy pf
+          let (_, g2) ← g1.intro1
+          let g3 ← g2.clear d.fvarId
+          return ← destructGoal lemmas fuel g3
+    return [g]
 
 open Lean Meta Elab Tactic in
 elab "conf_destruct" "[" ls:ident,* "]" : tactic => do
   let names ← ls.getElems.mapM fun i => realizeGlobalConstNoOverloadWithInfo i
-  liftMetaTactic fun g => destructGoal names g
+  liftMetaTactic fun g => destructGoal names 100000 g
 
 /-! ### optional punctuation: no pairs, text irrelevant (kept folded to avoid case splits) -/
 
